@@ -28,6 +28,15 @@ var c01Sinks = []c01Sink{
 	{"attr-bound", func(pre, post string) string { return `<p :title="x">t</p>` }, true},
 	{"attr-bound-interp", func(pre, post string) string { return `<p :title="` + pre + `{{ x }}` + post + `">t</p>` }, true},
 	{"class-bound", func(pre, post string) string { return `<p class="c" :class="x">t</p>` }, true},
+	// text sinks inside elements whose content an HTML parser reads as raw text or RCDATA: only script and style bodies are exempt from the property
+	{"text-noscript", func(pre, post string) string { return "<p>a</p><noscript>" + pre + "{{ x }}" + post + "</noscript>" }, false},
+	{"text-iframe", func(pre, post string) string { return "<p>a</p><iframe>" + pre + "{{ x }}" + post + "</iframe>" }, false},
+	{"text-xmp", func(pre, post string) string { return "<p>a</p><xmp>" + pre + "{{ x }}" + post + "</xmp>" }, false},
+	{"text-textarea", func(pre, post string) string { return "<p>a</p><textarea>" + pre + "{{ x }}" + post + "</textarea>" }, false},
+	{"text-title", func(pre, post string) string { return "<p>a</p><title>" + pre + "{{ x }}" + post + "</title>" }, false},
+	{"attr-in-noscript", func(pre, post string) string {
+		return `<p>a</p><noscript><img alt="` + pre + `{{ x }}` + post + `"></noscript>`
+	}, true},
 }
 
 type c01Nb struct{ name, pre, post string }
@@ -102,6 +111,8 @@ var c01Symbols = []string{"<", ">", "&", `"`, "'", ";", "#", "{{", "}}", "&amp;"
 var c01Nasty = []string{
 	"<b>x</b>", `"><script>alert(1)</script>`, `"><script>x</script>&amp;`, "&", "&amp;", "a & b;", "&lt;b&gt;", "</p><i>", "'", `"`, `" onmouseover="x`, "{{secret}}", "{{ secret }}", "}}{{secret}}{{",
 	"&#", "&#60;b&#62;", "<!--", "-->", "<![CDATA[", "a;b&c<d", "{{", "}}", "{{ x }}", `v-if="secret"`, "<template include=comp.vuego>", "&lt", "&quot;><b>", "x' y=\"z",
+	// values that close the element the sink sits in
+	"</noscript><b>x</b>", "</iframe><a href=x>y</a>", "</xmp><i>", "</textarea><i>", "</title><i>", "\"></noscript><img src=x>",
 }
 
 func c01Eval(sink c01Sink, nb c01Nb, con c01Construct, val string) *Case {
